@@ -7,6 +7,23 @@ import gen_derive as G
 
 DG = os.path.join(V, 'harness', 'dg')
 
+def bulk_more(sh, v, k):
+    """v with k more copies of one item in its first Vec / LinkedList field under the unordered strategy (searched through nested structs and
+    present Options); None when the shape has no such field"""
+    if sh.kind != 'S': return None
+    fs = list(v[1])
+    for i, f in enumerate(sh.fields):
+        if f.strat == 'U' and f.c < 2:
+            base = list(fs[i][1]); item = base[0] if base else 3
+            fs[i] = ('q', base + [item] * k); return ('t', fs)
+        if f.strat == 'R' and f.sub.kind == 'S':
+            r = bulk_more(f.sub, fs[i], k)
+            if r is not None: fs[i] = r; return ('t', fs)
+        if f.strat == 'Q' and fs[i][0] == 's' and f.sub.kind == 'S':
+            r = bulk_more(f.sub, fs[i][1], k)
+            if r is not None: fs[i] = ('s', r); return ('t', fs)
+    return None
+
 def gen_workload(seed, nshapes, npairs, nhist, depth=2, codec_safe=False):
     rng = random.Random(seed)
     shapes, lines, meta, dist = [], [], {}, {}
@@ -26,6 +43,13 @@ def gen_workload(seed, nshapes, npairs, nhist, depth=2, codec_safe=False):
             if mode == 'same': b = a
             elif mode == 'indep': b = G.gen_val(rng, sh)
             else: b = G.mutate_val(rng, sh, a, mode)
+            # stratified, whatever the seed: the first six pairs of a shape with a Vec / LinkedList field under the unordered strategy
+            # gain or lose exactly 255 / 256 / 257 copies of one item in that field (the bulk-entry boundary of the unordered diff)
+            if sh.kind == 'S' and j < 6:
+                k = (255, 256, 257)[j % 3]
+                more = bulk_more(sh, a, k)
+                if more is not None:
+                    a, b = (a, more) if j < 3 else (more, a); hit('pair_bulk_boundary_%d' % k)
             x = G.perturb_equiv(rng, sh, a) if rng.random() < 0.8 else a
             sub = [rng.randrange(8) for _ in range(rng.randint(0, 6))]
             c = G.mutate_val(rng, sh, b, 'any') if rng.random() < 0.8 else G.gen_val(rng, sh)
@@ -34,7 +58,7 @@ def gen_workload(seed, nshapes, npairs, nhist, depth=2, codec_safe=False):
             lines.append(f"PAIR {cid} {sid} A {G.vtext(a)} B {G.vtext(b)} X {G.vtext(x)} C {G.vtext(c)} SUB {' '.join(map(str, sub))}".rstrip())
         for j in range(nhist):
             st = [G.gen_val(rng, sh)]
-            for _ in range(rng.choice([3, 6, 12])):
+            for _ in range(rng.choice([3, 6, 12, 12, 30])):          # long ones: the concatenated diff has far more entries than fields
                 st.append(G.mutate_val(rng, sh, st[-1], rng.choice(['any', 'any', 'any', 'skiponly', 'orderonly'])))
             f0 = G.perturb_equiv(rng, sh, st[0])
             cid = f"h{sid}_{j}"
@@ -112,7 +136,7 @@ def canon_impl_lines(lines, shapes_by_id, meta):
 
 import derive_oracles as O
 TAGS = {'C01': ('D', 'A'), 'C02': ('D', 'X', 'H'), 'C03': ('D', 'S'), 'C04': ('D', 'DR'), 'C05': ('D', 'DR', 'XR', 'ARR', 'A', 'X'),
-        'C06': ('A', 'AR', 'AM', 'AS', 'A2', 'AR2', 'AM2', 'AS2'), 'C13': ('D', 'A', 'X')}
+        'C06': ('A', 'AR', 'AM', 'AS', 'A2', 'AR2', 'AM2', 'AS2', 'HA', 'HAR', 'HAM', 'HAS', 'HN'), 'C13': ('D', 'A', 'X')}
 
 def workload_params(prop, tier):
     # (nshapes, npairs, nhist); C13 uses a workload of shapes that all contain a recursive map
@@ -148,7 +172,7 @@ def run_workload(res, prop, seed, tier, tag):
                 lines.append(f"PAIR {cid} {sid} A {G.vtext(a)} B {G.vtext(b)} X {G.vtext(x)} C {G.vtext(c)} SUB {' '.join(map(str, sub))}".rstrip())
         shapes += extra
     key = sha('|'.join([repo_hash(), sha(open(os.path.join(DG, 'src', 'support.rs')).read() + open(os.path.join(DG, 'src', 'main.rs')).read()
-                                         + open(os.path.join(V, 'tools', 'gen_derive.py')).read()), str(seed), tier, family]))
+                                         + open(os.path.join(V, 'tools', 'gen_derive.py')).read() + open(os.path.abspath(__file__)).read()), str(seed), tier, family]))
     cdir = os.path.join(WORK, 'derive_cache', key)
     casefile = os.path.join(cdir, 'cases.txt')
     with lock('derive_' + family):
